@@ -378,7 +378,7 @@ def cases(tier):
             for k8 in (e[0] for e in c08.EXPRS):
                 if k8 not in ("round", "round-tie") and c08.applicable(k8, pos[p8][0], pos[p8][1], p8):
                     out.append(("c08prog", name, ((p8, k8),), False))
-                    if isinstance(pos[p8][0], c08.ArrBase) or tier == "thorough":
+                    if isinstance(pos[p8][0], c08.ArrBase) or tier == "thorough" or k8 == "var":
                         out.append(("c08prog", name, ((p8, k8),), True))
     out += [("dechist", k1, k2, codec) for k1 in HIST_KINDS for k2 in HIST_KINDS for codec in ("abstract", "legacy")]
     # de-duplicate
@@ -507,7 +507,7 @@ def run_c08prog(name, chosen_t, mappable):
             try:
                 doc = tmpl.to_abstract_repr() if codec == "abstract" else tmpl._serialize()
             except Exception as e:
-                if "No abstract representation for" in str(e):
+                if "No abstract representation for" in str(e) or "only supported for the 'PchipInterpolator'" in str(e):
                     out.append(("@expression-not-exportable", str(e)[:60]))
                     continue
                 if "of unknown length and unspecified 'times'" in str(e):
@@ -524,10 +524,26 @@ def run_c08prog(name, chosen_t, mappable):
             except Exception as e:
                 out.append((f"C04:decode-raises:{codec}:c08-{name}:{type(e).__name__}", f"{chosen}: {e}"[:250]))
                 continue
+            # a mappable register may be built with only the first m of its declared ids mapped: whatever "every qubit" means in a
+            # stored call is resolved then, for the original and for the decoded template alike
+            partial = [("partial", {"qubits": {q: mapping[q] for q in w.qids[:m]}}) for m in range(1, len(w.qids))] if mappable else []
             for tag, assign in (("A", A), ("B", B)):
                 vals = TV.var_values(assign)
                 if vals is None:
                     continue
+                for ptag, pq in partial if tag == "A" else []:
+                    try:
+                        p1 = tmpl.build(**vals, **pq)
+                    except Exception:
+                        continue
+                    try:
+                        p2 = dec.build(**vals, **pq)
+                    except Exception as e:
+                        out.append((f"C04:decoded-build-raises:partial-mapping:{codec}:c08-{name}:{type(e).__name__}", f"{chosen}, {len(pq['qubits'])} ids mapped: {e}"[:250]))
+                        continue
+                    compared += 1
+                    if norm(snapshot.snap(p1, False)) != norm(snapshot.snap(p2, False)):
+                        out.append((f"C04:decoded-build-differs:partial-mapping:{codec}:c08-{name}", f"{chosen}, {len(pq['qubits'])} ids mapped"))
                 try:
                     b1 = tmpl.build(**vals, **qmap)
                 except Exception:
@@ -554,7 +570,7 @@ def run_c08prog(name, chosen_t, mappable):
                         if norm(snapshot.snap(b3, False)) != norm(s1):
                             out.append((f"C04:decoded-built-sequence-differs:{codec}:c08-{name}:{kinds}", f"{chosen}"))
                     except Exception as e:
-                        if "No abstract representation for" not in str(e):
+                        if "No abstract representation for" not in str(e) and "only supported for the 'PchipInterpolator'" not in str(e):
                             out.append((f"C04:built-sequence-roundtrip-raises:{codec}:c08-{name}:{type(e).__name__}", f"{chosen}: {e}"[:220]))
         # exporting WITH default values for the variables (and default traps for a mappable register): same document plus the values
         valsA = TV.var_values(A)
@@ -586,7 +602,8 @@ def run_c08prog(name, chosen_t, mappable):
                     if norm(snapshot.snap(b1, False)) != norm(snapshot.snap(b2, False)):
                         out.append((f"C04:decoded-build-differs:abstract:with-defaults:c08-{name}", f"{chosen}"))
                 except Exception as e:
-                    if "No abstract representation for" not in str(e) and "of unknown length and unspecified 'times'" not in str(e):
+                    if "No abstract representation for" not in str(e) and "of unknown length and unspecified 'times'" not in str(e) \
+                            and "only supported for the 'PchipInterpolator'" not in str(e):
                         out.append((f"C04:export-with-defaults-raises:c08-{name}:{type(e).__name__}", f"{chosen} {valsA}: {e}"[:250]))
     return out + [("@roundtrip" if compared else "@nothing-built", "")]
 
